@@ -166,7 +166,7 @@ PROPS["C12"] = {
             "the EBNF) accepts, and every rejection must carry a label inside the source on char boundaries. Lexical negatives: a "
             "bidi/deprecated/control code point inserted at a random position (also inside comments and strings), unterminated "
             "string/comment, stray characters, invalid semver after `@`, empty record/variant/enum/flags/tuple bodies. "
-            "Non-trivial: document with >= 3 statement/declaration kinds; distinct by token text with digits removed.",
+            "Non-trivial: document with >= 3 statement/declaration kinds; distinct by token text with digits removed. Separators between tokens include block comments generated from pieces that put `/`, `*` and delimiters next to each other (`/*/`, `**/`, nesting), validated by a reference nesting scanner, and their unterminated variants as negatives; forbidden code points are drawn from the whole classes (C0 controls other than tab/LF/CR, DEL, C1 controls U+0080..U+009F, bidirectional overrides and isolates, deprecated code points).",
     "assumptions": ["reference `id` admits upper-case words (WIT acronyms) as the implementation's token rule does",
                     "an argument list may be empty and `...` may stand at any argument position syntactically ('must be last' is an evaluation rule, C04)",
                     "`results ::= type` only: the EBNF's named result list was removed from WIT and is documentation staleness, not a defect",
@@ -324,7 +324,7 @@ PROPS["C17"] = {
             "(never the own package; CannotInstantiateSelf for a self instantiation wherever it is nested); Document::resolve + encode "
             "gives the same outcome (same SHA-256 of the bytes, or the same rendered error) when supplied the whole 13-package library, "
             "the discovered packages only, and the discovered packages plus a random subset of the others. Non-trivial: every document; "
-            "distinct by the sorted multiset of reference positions and the outcome class.",
+            "distinct by the sorted multiset of reference positions and the outcome class. The own package carries a version half of the time (paths into it stay unversioned); pass-through components with two imports give `new` expressions with two named arguments, each holding a nested `new`, in either order.",
     "assumptions": ["resolution stops at the first error, so references after a failing statement are only checked against the syntactic set "
                     "(about a quarter of the documents fail resolution on purpose or by construction)",
                     "panics of resolve/encode are C14's subject and are skipped here (counted as pipeline-panic-skipped)"],
@@ -468,7 +468,7 @@ PROPS["C16"] = {
             "parse -> discovery -> file-system resolver -> resolve -> encode (bytes or rendered diagnostic). SHA-256 of every "
             "output is recorded under a label; in-process repetition and an encode of a cloned graph are compared by the worker, "
             "digests across processes by the supervisor. evaluations counts executions over all processes; distinct_nontrivial "
-            "counts distinct labels. The run is inconclusive unless at least 2 distinct HashMap iteration orders were observed.",
+            "counts distinct labels. The run is inconclusive unless at least 2 distinct HashMap iteration orders were observed. Histories with removals: a definition with 2-6 dependants is removed, 2-7 new definitions reuse the freed node slots, the graph is encoded; replayed three times in-process and compared across the replicated processes. Multi-fault documents: five fixed documents whose resolution fails with several simultaneous faults of one kind (unknown names in `include .. with`, imports outside the target world, exports missing from it, imports with mismatched types), resolved six times per process; the rendered diagnostic must be the same every time and in every process.",
     "assumptions": ["per-process hash seeds cannot be forced, only observed (hash probe)"],
     "technique": "runtime monitor: cross-process and in-process digest comparison of all outputs under differing hash randomisation",
     "level_text": "Determinism is decided by re-executing identical inputs in several fresh processes with different hash seeds, on "
@@ -531,7 +531,7 @@ PROPS["C07"] = {
             "(both directions), transitive on the verdict matrix, unchanged under 3 random orders sharing one memo. Random part: "
             "shuffled sub-universes, and libraries with resources where one provider exports exactly what a consumer imports and "
             "every accepted argument is wired: the encoding must validate. Non-trivial: ordered pair of different items.",
-    "exhaustive_note": "all ordered pairs of the listed item universe are enumerated on every run; the shuffled sub-universes and resource wirings are sampled",
+    "exhaustive_note": "all ordered pairs of the listed item universe are enumerated on every run; the shuffled sub-universes and resource wirings are sampled A further category `type-item` holds TYPE imports whose definition is an instance, component or defined type (`(type (eq $T))`, what a WIT package exports for an interface or world); it goes through the same reference comparison and memo-order law.",
     "assumptions": ["wasmparser 0.247 ComponentEntityType::is_subtype_of is the reference relation",
                     "pairs differing in the table64 flag are not compared with the reference: wasmparser's module-type matching ignores that flag, wac's stricter verdict follows the core spec and is pinned by the repository's test mismatched_table64_is_rejected",
                     "pairs involving resource types are only checked for the algebraic laws and, in the wiring workload, for validity"],
@@ -614,7 +614,7 @@ PROPS["C11"] = {
             "expectation by construction, Document::resolve (Ok / ImportNotInTarget / MissingTargetExport / TargetMismatch), "
             "validate_target on (world package, output of the same document without the clause), and for resource-free libraries "
             "wasmparser's `output <: world` with both nested in one validator. Non-trivial: every pair; distinct by perturbation "
-            "and world shape.",
+            "and world shape. Second workload (one case in five): two instantiations implicitly import one plain name with different, mergeable instance types; the world offers the union, or only what one of them needs; both `let` orders; all three checks must accept exactly when the union is offered. Third workload (one case in ten): the world requires a function / instance export and the document really exports it or only defines a type of that name (`type fx = func(..)`, `interface inl {..}`); a type definition never satisfies the world. Three directed witnesses reproduce the recorded resource-identity findings.",
     "assumptions": ["the world package is encoded by wit_component::encode exactly as `wac targets` does"],
     "technique": "runtime monitor: four-way differential oracle (construction, resolver, stand-alone checker, reference validator subtyping)",
     "level_text": "Both implementations of conformance and an external reference are run on every generated pair and must agree with each "
